@@ -557,6 +557,22 @@ theorem reencode_succeeds (fs : List Schema) (ic : Bool) (w : Bytes) (vs : List 
   obtain ⟨b, h1, h2⟩ := reencode_ok fs ic w vs hw'.1 hr hlen h
   exact ⟨b, h1, h2, reencode_parses_back fs ic w vs b hw h h1⟩
 
+/-- **reencode_fails_only.** For **every** well-formed class (with `fixed_len` fields too) and every accepted
+    wire, re-encoding the accepted model either succeeds — and then decodes to that model — or raises `ValueError`
+    (an integer received in a wider form than the field's `fixed_len`) or `struct.error` (a Type or Length that does
+    not fit 64 bits); never `TypeError`: the shapes the decoder delivers are the shapes the encoder expects. -/
+theorem reencode_fails_only (fs : List Schema) (ic : Bool) (w : Bytes) (vs : List Value)
+    (hw : wfTop fs = true) (h : parse fs ic w = .ok vs) :
+    (∃ b, encFields fs vs = .ok b ∧ ∀ ic', parse fs ic' b = .ok vs) ∨
+    encFields fs vs = .error .valueError ∨ encFields fs vs = .error .structError := by
+  cases he : encFields fs vs with
+  | ok b => exact .inl ⟨b, rfl, reencode_parses_back fs ic w vs b hw h he⟩
+  | error e =>
+    right
+    rcases encFields_reErr fs vs (parse_wf fs ic w vs hw h).1 e he with rfl | rfl
+    · exact .inl rfl
+    · exact .inr rfl
+
 /-! non-vacuity: a wire with a non-minimal integer, an unknown non-critical element and a repeated dict key is
     accepted; its model re-encodes to a shorter wire that decodes to the same model -/
 example : reFs exMapFs = true := by decide
